@@ -21,6 +21,9 @@ pub enum Error {
 
     #[error("Apply error: {0}")]
     Apply(#[from] tx3_tir::reduce::Error),
+
+    #[error("Lowering error: {0}")]
+    Lowering(#[from] lowering::Error),
 }
 
 pub type Code = String;
@@ -114,7 +117,7 @@ impl Workspace {
         let ast = self.ast.as_ref().unwrap();
 
         for tx in ast.txs.iter() {
-            let tir = lowering::lower(ast, &tx.name.value).unwrap();
+            let tir = lowering::lower(ast, &tx.name.value)?;
             self.tir.insert(tx.name.value.clone(), tir);
         }
 
